@@ -163,6 +163,10 @@ def check_obligation(ob, timeout_ms=10000):
     if z3.is_true(g):
         return 'discharged', 'simplifier', time.time() - t0, None
     quant = has_quantifier(ob.goal) or any(has_quantifier(h) for h in ob.hyps)
+    # the negated goal is literally one of the hypotheses (or the goal is False): nothing to prove from; the
+    # obligation fails on this path unless the path itself is infeasible - decided below with the cheap parts only
+    ng = z3.simplify(z3.Not(ob.goal))
+    literal_clash = z3.is_false(g) or any(h.eq(ng) or z3.simplify(h).eq(ng) for h in ob.hyps)
     # stage 0: growing subsets of the hypotheses (none, those sharing a constant with the goal, the cone of
     # influence).  Fewer hypotheses can only make the query harder to refute: unsat here is a proof.
     if len(ob.hyps) > 4:
@@ -210,6 +214,8 @@ def check_obligation(ob, timeout_ms=10000):
         return 'refuted', 'cvc5', dt + dt2, cand
     if cand is not None:
         return 'candidate', 'z3+instantiation', dt + dt2, cand
+    if literal_clash:
+        return 'candidate', 'goal contradicts a hypothesis of a path the solvers could not show infeasible', dt + dt2, None
     return 'unknown', 'z3+cvc5:' + s.reason_unknown(), dt + dt2, None
 
 
